@@ -16,6 +16,7 @@ from engine import Ref, Struct, Enum, Tup, VecV, Opaque, BoxV, StringV, AbsStr, 
 from interp import Explorer, Inconclusive, RustPanic, PathInfeasible, norm_type, strip_generics
 from models import Models, some, none, ok, err, deref, sv, TABLE
 from mir import split_top, match_close, find_top
+from values import is_sym as _is_sym
 
 MAX_ABSTRACT_CALLS = 14
 MAX_PRIMITIVE_EVENTS = 60
@@ -61,9 +62,34 @@ class Consumed(Exception):
 
 
 def nullability_cut(it, sp):
-    if it.env.get('nullability_mode'):
+    if it.env.get('nullability_mode') or it.env.get('garbage_mode'):
         p0 = it.env.get('p_in')
         if p0 is not None and not it.feasible(sp.data['off'] == p0):
+            raise Consumed()
+
+
+# garbage-first mode (C14): the byte at the entry position p_in is one that starts no SystemVerilog token -- anything but
+# printable ASCII and the white-space characters.  Primitives that match constant printable text / character sets fail
+# there; byte-agnostic primitives (is_not, take, none_of, anychar, predicates) may consume it.
+NONGARBAGE = set(chr(c) for c in range(0x20, 0x7f)) | set('\t\n\r\x0c')
+
+
+GARBAGE_SAMPLES = ['\x00', '\x01', '\x08', '\x0b', '\x0e', '\x1f', '\x7f', '\x80', '\x85', '\xa0', '\xe9', '\u03a9', '\u0663', '\u2167', '\u2028', '\u3000',
+                   '\ufeff', '\U0001d7d8']
+
+
+def at_garbage(it, p):
+    if not it.env.get('garbage_mode'):
+        return False
+    p0 = it.env.get('p_in')
+    return p is p0 or not it.feasible(p != p0)
+
+
+def garbage_consumed_check(it, q):
+    """garbage mode: the path provably moved past the garbage byte"""
+    if it.env.get('garbage_mode'):
+        p0 = it.env.get('p_in')
+        if not it.feasible(q == p0):
             raise Consumed()
 
 
@@ -181,9 +207,16 @@ def call_production(it, path, sp, dest_ty):
     if g.calls > MAX_ABSTRACT_CALLS:
         it.assume(z3.Not(okb))
     p = sp.data['off']
+    garb = at_garbage(it, p) and name not in it.env.get('garbage_consuming', ())
+    if garb and it.env.get('nonnullable') is not None and name in it.env['nonnullable']:
+        # induction hypothesis of the garbage-first fixpoint: this callee cannot consume the garbage byte, and it cannot
+        # succeed without consuming: it fails
+        it.assume(z3.Not(okb))
     if it.decide(okb, 'prod:' + name):
         q = g.fresh('q')
         it.assume(q >= p)
+        if garb:
+            it.assume(q == p)
         nonnull = it.env.get('nonnullable')
         if nonnull is not None and name in nonnull:
             it.assume(q > p)
@@ -312,6 +345,45 @@ def apply_prim(it, P_, sp, dest_ty):
         r = lexengine.lex_prim(it, P_, sp, dest_ty)
         if r is not NotImplemented:
             return r
+    if k in ('terminal', 'tag', 'tag_no_case', 'is_a', 'one_of', 'char', 'alpha1', 'digit1', 'space1', 'multispace1', 'alphanumeric1', 'hex_digit1',
+             'line_ending') and at_garbage(it, p):
+        a0 = P_.args[1] if k == 'terminal' else (P_.args[0] if P_.args else None)
+        if type(a0) is Char:
+            a0 = a0.c if isinstance(a0.c, str) else chr(a0.c)
+        fails = False
+        if k in ('terminal', 'tag', 'tag_no_case'):
+            fails = isinstance(a0, str) and len(a0) > 0 and a0[0] in NONGARBAGE
+        elif k in ('is_a', 'one_of', 'char'):
+            fails = isinstance(a0, str) and all(c in NONGARBAGE for c in a0)
+        else:
+            fails = True
+        if fails:
+            g.log.append(('garbage-refused', k))
+            return nom_error(it, sp)
+    if k in ('take_while', 'take_while1', 'take_till', 'take_till1', 'satisfy') and P_.args and at_garbage(it, p):
+        # predicate closures / functions are run from their MIR on representative garbage characters (control characters, DEL,
+        # non-ASCII letters, digits, spaces): if none is accepted the primitive cannot consume the byte
+        pred = P_.args[0]
+        pv = pred.get() if type(pred) is Ref else pred
+        if type(pv) in (Closure, FnItem):
+            acc = None
+            try:
+                acc = False
+                for ch in GARBAGE_SAMPLES:
+                    r = it.call_value(pv, [Char(ch)])
+                    if _is_sym(r):
+                        acc = None
+                        break
+                    if bool(r) != k.startswith('take_till'):
+                        acc = True
+                        break
+            except (Inconclusive, RustPanic):
+                acc = None
+            if acc is False:
+                g.log.append(('garbage-refused', k))
+                if k in ('take_while', 'take_till'):
+                    return ok(Tup([sp, span(p, length=0)]))
+                return nom_error(it, sp)
     g.prims = getattr(g, 'prims', 0) + 1
     if g.prims > MAX_PRIMITIVE_EVENTS and k in ('terminal', 'tag', 'tag_no_case', 'is_a', 'is_not', 'one_of', 'none_of', 'char', 'anychar'):
         # bound on the number of token-level events along one path (loops over separators etc.)
@@ -426,6 +498,12 @@ def apply_prim(it, P_, sp, dest_ty):
         # repetition of an effect-free production: one abstract step (its results tile [p, q) by induction)
         name = prod_name(P_.args[0].path)
         q = g.fresh('q')
+        if at_garbage(it, p) and name not in it.env.get('garbage_consuming', ()):
+            # no iteration can consume the garbage byte: many0 yields the empty list, many1 fails
+            if k == 'many1':
+                return nom_error(it, sp)
+            g.log.append(('many', name))
+            return ok(Tup([sp, anode('Vec', p, p)]))
         if k == 'many1':
             okb = g.fresh('ok_many1_' + name, 'Bool')
             if not it.decide(okb, 'many1'):
